@@ -652,7 +652,16 @@ fn main() {
                             (w.shred_resp_op(&req, &shred), RepairResponse::Shred(req.clone(), shred), name)
                         }
                     };
-                    let is_other_marker = name == "shred-other-last-marker";
+                    // any leader-signed shred with the proven root and the requested indices but the *other* last-slice
+                    // marker (whichever block it was cut from) passes every check of the requester
+                    let is_other_marker = name == "shred-other-last-marker" || match (&resp, &req) {
+                        (RepairResponse::Shred(_, sh), RepairRequestType::Shred(_, i, jx)) => {
+                            let parts = sh.payload().verif_parts();
+                            let i = si_usize(i.clone());
+                            sh.slice_root() == blk.built[i].root && si_usize(parts.1) == i && parts.3 == jx.inner() && ValidatedShred::try_new(sh.clone(), None, &w.pk).is_ok()
+                        }
+                        _ => false,
+                    };
                     // a "hostile" response that happens to be byte-identical to the honest one (blocks with equal
                     // slices have equal roots / trees) is simply a correct response
                     let same_as_correct = wincode::serialize(&resp).ok() == wincode::serialize(&correct_response(&w, &blk, &req).1).ok();
